@@ -32,7 +32,7 @@ pub fn run() {
     let mut n_d = 0u64; let mut n_sw = 0u64; let mut n_err = 0u64; let mut n_c03 = 0u64; let mut n_over = 0u64;
     let mut hist_d = std::collections::BTreeMap::<i64, u64>::new();
     let mut hist_out = std::collections::BTreeMap::<i64, u64>::new();
-    let mut panics = 0u64; let mut exceed: Vec<String> = vec![];
+    let mut panics = 0u64; let mut errk = std::collections::BTreeMap::<String,u64>::new(); let mut exceed: Vec<String> = vec![];
     for amp in amps {
         for decs in &dec_sets {
             let n = decs.len();
@@ -79,7 +79,7 @@ pub fn run() {
                             n_sw += 1;
                             match r {
                                 Err(_) => panics += 1,
-                                Ok(Err(_)) => n_err += 1,
+                                Ok(Err(e)) => { n_err += 1; *errk.entry(e.to_string().chars().take(60).collect::<String>()).or_default() += 1; },
                                 Ok(Ok(sc)) => {
                                     let out = sc.return_amount.u128();
                                     if out > res[ai] { n_over += 1; }
@@ -125,6 +125,7 @@ pub fn run() {
     println!("C19 tolerance exceedances: {} (trader-favouring {})", exceed.len(), tp);
     for e in exceed.iter().filter(|e| e.starts_with("TRADER+")).take(40) { println!("  {e}"); }
     for e in exceed.iter().filter(|e| e.starts_with("pool+")).take(40) { println!("  {e}"); }
+    println!("error kinds: {:?}", errk);
     println!("worst D: {:?}", worst_d);
     println!("worst out: {:?}", worst_out);
     println!("hist D diff (units at max precision, clamped): {:?}", hist_d);
